@@ -10,12 +10,15 @@ the Python objects behind an id rotate through alias forms (1 / 1.0 / True).
   line()   the same history in the line protocol of lean/BoltonsVerif/C01/Driver.lean
   oracle() replays the history on two plain Python lists of pairs - no boltons code, no Lean model
 """
+import collections
+import collections.abc
 import copy
 import importlib.util
 import itertools
 import os
 import pickle
 import sys
+import types
 
 from bv import common
 from bv.common import Property, Failure, time_limit, exc_name, CaseTimeout
@@ -26,19 +29,63 @@ KEY_FORMS = {
     'S': [['a'], ['b'], ['c'], ['d']],
     'I': [[0, 0.0, False], [1, 1.0, True], [2, 2.0], [3, 3.0]],
     'N': [['a'], ['b'], [None], [(1, 'x')]],
+    'F': [[0, False, 0.0], [''], [()], [None]],                       # every key is falsy
 }
 VAL_FORMS = {
     'S': [[0], [1], [2], [3], [None]],
     'I': [[0, 0.0, False], [1, 1.0, True], [2, 2.0], [3, 3.0], [None]],
     'N': [[0], [1], [2], [3], [None]],
+    'F': [[0, False, 0.0], [''], [()], [frozenset()], [None]],        # every value is falsy
 }
-KWARG_IDS = {'S': [0, 1, 2, 3], 'I': [], 'N': [0, 1]}
+KWARG_IDS = {'S': [0, 1, 2, 3], 'I': [], 'N': [0, 1], 'F': []}
 CLASSES = ['D', 'Q', 'U', 'UQ']
 COPY_KINDS = ['copy', 'cc', 'dc', 'p0', 'p1', 'p2', 'p3', 'p4', 'p5']
-PAIR_KINDS = ['l', 'g', 't', 'i', 'z']
-ADDLIST_KINDS = ['l', 'i', 't', 'g', 'r']
+PAIR_KINDS = ['l', 'g', 't', 'i', 'z']          # + 'x': a generator that yields the pairs and then raises Boom
+ADDLIST_KINDS = ['l', 'i', 't', 'g', 'r']       # + 'x': a generator that yields the values and then raises Boom
 _STANDALONE = 'bv_c01_urlutils_standalone'
 DEFAULT = type('Default', (), {'__repr__': lambda self: '<DEFAULT>'})()
+# objects handed in as `default`: the private sentinel of boltons is falsy, so falsy caller defaults are the
+# interesting ones; none of them is a value of any universe (None is used only in None-free histories)
+FALSY_DEFAULTS = [b'', 0j, range(0)]
+JUNK = 'junk'                                   # what the harness scribbles into its own lists afterwards
+
+
+class Boom(Exception):
+    """raised by the harness's own iterables half way through an argument"""
+
+
+class PlainMapping(collections.abc.Mapping):
+    """a mapping that is not a dict: the three abstract methods, everything else from the ABC"""
+
+    def __init__(self, d):
+        self._d = dict(d)
+
+    def __getitem__(self, k):
+        return self._d[k]
+
+    def __iter__(self):
+        return iter(self._d)
+
+    def __len__(self):
+        return len(self._d)
+
+
+MAPPING_FORMS = [dict, collections.OrderedDict, collections.UserDict, lambda d: types.MappingProxyType(dict(d)),
+                 PlainMapping, dict]
+_SUBCLASS = {}
+
+
+def _subclass_of(cls):
+    """a trivial subclass (an OMD argument need not be of the receiver's exact class)"""
+    if cls not in _SUBCLASS:
+        _SUBCLASS[cls] = type('Sub' + cls.__name__, (cls,), {})
+    return _SUBCLASS[cls]
+
+
+def _raising(items):
+    for x in items:
+        yield x
+    raise Boom('argument iterable failed')
 
 
 def _classes():
@@ -74,6 +121,34 @@ class Ctx:
     def __init__(self, case):
         self.u = case['u']
         self.n = case.get('fs', 0)
+        self.none_ok = not _mentions_none(case['ops'])
+        self.dflt = DEFAULT
+
+    def D(self):
+        """the next object to hand in as `default`; results are compared with it by identity"""
+        forms = [DEFAULT] + FALSY_DEFAULTS + ([None] if self.none_ok else []) + [DEFAULT]
+        self.n += 1
+        self.dflt = forms[self.n % len(forms)]
+        return self.dflt
+
+    def mapping(self, ps):
+        """a mapping argument: dict, dict subclass, and mappings that are not dicts"""
+        self.n += 1
+        return MAPPING_FORMS[self.n % len(MAPPING_FORMS)](dict(ps))
+
+    def omd_class(self, cls, classes):
+        """the class of a fresh OMD argument: the receiver's class, its sibling (OrderedMultiDict <->
+        QueryParamDict of the same module) or a trivial subclass"""
+        self.n += 1
+        r = self.n % 4
+        if r == 1:
+            sib = {'D': 'Q', 'Q': 'D', 'U': 'UQ', 'UQ': 'U'}
+            for name, c in classes.items():
+                if c is cls:
+                    return classes[sib[name]]
+        if r == 2:
+            return _subclass_of(cls)
+        return cls
 
     def K(self, kid):
         fs = KEY_FORMS[self.u][kid]
@@ -108,8 +183,13 @@ class Ctx:
         return [[self.kid(k), self.vid(v)] for k, v in it]
 
 
-def _bad(x):
-    return isinstance(x, str)
+def _mentions_none(x):
+    """does a history mention the value id of None (or setdefault without a default)?"""
+    if isinstance(x, list):
+        if len(x) == 3 and x[0] == 'sd' and x[2] < 0:
+            return True
+        return any(_mentions_none(y) for y in x)
+    return x == NONE_V and x is not True
 
 
 class C01(Property):
@@ -117,17 +197,25 @@ class C01(Property):
     QUICK_BUDGET_S = 45
     THOROUGH_BUDGET_S = 700
     RULE = ('a case is one whole history of public OrderedMultiDict operations (constructor, add, addlist with '
-            'list/tuple/iterator/generator/range, []=, del, update / |= / update_extend with self, another OMD, a dict, '
-            'a list / generator / iterator / zip of pairs, keyword arguments, setdefault, pop, popall, poplast, popitem, '
-            'clear, copy(), copy.copy, copy.deepcopy, pickle protocols 0-5, ==/!= against OMDs, dicts and non-mappings, '
+            'list/tuple/iterator/generator/range, []=, del, update / |= / update_extend with self, another OMD (of the '
+            'same class, the sibling class or a subclass), a mapping (dict, OrderedDict, UserDict, mappingproxy, a bare '
+            'collections.abc.Mapping), a list / generator / iterator / zip of pairs, a snapshot of its own pairs or its own '
+            'todict(), keyword arguments, setdefault, pop, popall, poplast, popitem, clear, copy(), copy.copy, '
+            'copy.deepcopy, pickle protocols 0-5, ==/!= against OMDs, mappings, its own todict() and non-mappings, '
             'sorted, sortedvalues) on two registers, over 4 key ids x 5 value ids whose Python objects rotate through '
-            'alias forms (1/1.0/True, None, tuples), on dictutils.OrderedMultiDict, urlutils.QueryParamDict and the '
-            'standalone copy of the class in urlutils.py; EVERY reader is dumped after EVERY op. Exhaustive: all '
-            'histories of <= 2 ops over the full op alphabet (2 keys x 2 values) and <= 3 (thorough: 4) ops over the '
-            'core alphabet; seeded random histories of 5-60 ops; hand-written adversarial families. Non-trivial = at '
-            'some point a key holds >= 2 values while the pairs of different keys are interleaved (the pair order is '
-            'not the dict order), and at least one removal or replacement happened; distinct = distinct (class, key '
-            'universe, history).')
+            'alias forms (1/1.0/True, None, tuples; one universe where every key and every value is falsy), on '
+            'dictutils.OrderedMultiDict, urlutils.QueryParamDict and the standalone copy of the class in urlutils.py. '
+            'Argument iterables may raise half way (the exception must propagate and leave a consistent dictionary); '
+            'caller-supplied defaults rotate through a private object and falsy objects (None where None is not a '
+            'value); after each call the harness scribbles on every object it handed in and on every list / dict / OMD '
+            'it got back (nothing may be kept or handed out by reference). EVERY reader of `s` (and the keyed and '
+            'ordered readers of `t`) is dumped after EVERY op. Small adversarial families come first (aliasing through '
+            'registers, arguments, results and copies; raising arguments; defaults; argument classes; one history with '
+            'hundreds of values per key), then exhaustive: all histories of <= 2 ops over the full op alphabet (2 keys x '
+            '2 values) and <= 3 (thorough: 4) ops over the core alphabet; then seeded random histories of 5-60 ops. '
+            'Non-trivial = at some point a key holds >= 2 values while the pairs of different keys are interleaved (the '
+            'pair order is not the dict order), and at least one removal or replacement happened; distinct = distinct '
+            '(class, key universe, history).')
     ASSUMPTIONS = [
         'keys are hashable with == consistent with hash (1, 1.0, True are one key); values are compared with ==, no NaN',
         'reads are compared up to == of keys and values (which alias object comes back is not compared)',
@@ -136,10 +224,15 @@ class C01(Property):
         'does not prescribe which key (the model and the fix use the key of the most recently inserted pair)',
         'sortedvalues: the oracle accepts any order among values whose sort keys are equal; sorted() is stable like sorted()',
         'fromkeys, the view objects and FastIterOrderedMultiDict are outside the property statement',
-        'an exception raised half way through update()/update_extend() by a malformed argument is outside the model',
+        'an argument iterable that raises: the exception must propagate; how many of the items yielded before were '
+        'taken over is not prescribed by the oracle (any prefix; the model/code: all of them for update / update_extend, '
+        'none for addlist), but every reader must agree with that one list of pairs afterwards. Malformed items '
+        '(not pairs) and mappings whose __getitem__ raises are outside the model',
+        'an OMD of the sibling class or of a subclass counts as an OMD (isinstance), any collections.abc.Mapping as a mapping',
     ]
-    CORRESPONDENCE_NAME = ('C01.Driver (OMD model: dict of value lists + cell list) vs boltons OrderedMultiDict '
-                           '(dictutils, urlutils copy, QueryParamDict)')
+    CORRESPONDENCE_NAME = ('C01.Driver (concrete model: dict of value lists + pointer-level linked list of cells + per-key '
+                           'cell index _map; readers through its abstraction, reversed() along PREV) vs boltons '
+                           'OrderedMultiDict (dictutils, urlutils copy, QueryParamDict)')
 
     # ------------------------------------------------------------------ generation
     def _full_alphabet(self):
@@ -164,6 +257,13 @@ class C01(Property):
               ['eq', ['t']], ['eq', ['s']], ['eq', ['m', [[0, 1]]]], ['eq', ['m', [[0, 1], [1, 1]]]], ['eq', ['m', [[0, 0], [1, 0]]]],
               ['eq', ['o', [[0, 0], [0, 1]]]], ['eq', ['o', [[0, 1]]]], ['eq', ['x', 'l']], ['eq', ['x', 'n']],
               ['sorted', 'n', 0], ['sorted', 'v', 1], ['sv', 'n', 0], ['sv', 'c', 1]]
+        # arguments that raise half way, snapshots of the receiver itself as argument
+        A += [['addlist', 0, 'x', [1, 0]], ['addlist', 1, 'x', []], ['upd', ['p', 'x', [[0, 0], [1, 1], [0, 1]]], []],
+              ['ext', ['p', 'x', [[1, 0], [1, 1]]], []], ['new', ['p', 'x', [[0, 1]]], []], ['ior', ['p', 'x', []]],
+              ['upd', ['sl'], []], ['ext', ['sl'], []], ['upd', ['sd'], []], ['ext', ['sd'], []],
+              ['eq', ['x', 'td']], ['eq', ['sl']],
+              # keyword arguments that collide with the positional argument (they win, and come last)
+              ['upd', ['m', [[0, 1]]], [[0, 0]]], ['upd', ['p', 'l', [[0, 1], [1, 1]]], [[0, 0]]]]
         return A
 
     def _core_alphabet(self):
@@ -173,7 +273,9 @@ class C01(Property):
                 ['ext', ['s'], []], ['cp', 'cc', 't'], ['swap'], ['upd', ['m', [[0, 0], [1, 1]]], []]]
 
     def _mk(self, ops, i=0, u=None):
-        u = u or ('S', 'I', 'S', 'N')[i % 4]
+        u = u or ('S', 'I', 'S', 'N', 'F')[i % 5]
+        if u == 'F' and any(op[0] in ('sorted', 'sv') and op[1] == 'n' for op in ops):
+            u = 'S'                 # the falsy universe mixes types: no native sort keys there
         ops = [self._fit(op, u) for op in ops]
         return {'c': CLASSES[i % 4] if i % 7 else 'D', 'u': u, 'fs': i % 5, 'ops': ops}
 
@@ -182,6 +284,8 @@ class C01(Property):
         """drop keyword arguments whose key ids are not identifiers in universe u"""
         if op[0] in ('upd', 'ext', 'new') and op[2]:
             return [op[0], op[1], [p for p in op[2] if p[0] in KWARG_IDS[u]]]
+        if op[0] == 'addlist' and op[2] == 'r' and u == 'F':
+            return ['addlist', op[1], 't', op[3]]      # range() yields ints; they are not the values of universe F
         return op
 
     def cases(self, budget_s):
@@ -226,8 +330,10 @@ class C01(Property):
 
     def _rarg(self, rng, nk, vmax, for_eq=False):
         r = rng.random()
-        if r < 0.12:
+        if r < 0.10:
             return ['s']
+        if r < 0.12:
+            return [rng.choice(['sl', 'sd'])]
         if r < 0.3:
             return ['t']
         if r < 0.45:
@@ -235,12 +341,12 @@ class C01(Property):
         if r < 0.65:
             return ['m', self._rmapping(rng, nk, vmax)]
         if for_eq and r < 0.72:
-            return ['x', rng.choice(['l', 'n', 'i'])]
-        return ['p', rng.choice(PAIR_KINDS), self._rpairs(rng, nk, vmax=vmax)]
+            return ['x', rng.choice(['l', 'n', 'i', 'td', 'td'])]
+        return ['p', 'x' if rng.random() < 0.08 else rng.choice(PAIR_KINDS), self._rpairs(rng, nk, vmax=vmax)]
 
     def random_case(self, rng, long=False):
-        u = rng.choice(['S', 'S', 'I', 'N'])
-        nf = u != 'N' and rng.random() < 0.6          # None-free: native sort keys are usable
+        u = rng.choice(['S', 'S', 'I', 'N', 'F'])
+        nf = u in 'SI' and rng.random() < 0.6         # None-free, one type: native sort keys are usable
         vmax = 3 if nf else 4
         nk = rng.choice([2, 3, 4, 4])
         nops = rng.randint(20, 60) if long else rng.randint(5, 25)
@@ -249,7 +355,7 @@ class C01(Property):
         if rng.random() < 0.5:
             ops.append(['new', self._rarg(rng, nk, vmax) if rng.random() < 0.8 else None,
                         self._rmapping(rng, nk, vmax, kw) if rng.random() < 0.3 else []])
-            if ops[0][1] == ['s']:
+            if ops[0][1] in (['s'], ['sl'], ['sd']) or self._aborts(ops[0][1]):
                 ops[0][1] = ['p', 'l', self._rpairs(rng, nk, 1, 5, vmax)]
         for _ in range(nops):
             r = rng.random()
@@ -257,8 +363,10 @@ class C01(Property):
             if r < 0.2:
                 ops.append(['add', k, v])
             elif r < 0.27:
-                kind = rng.choice(ADDLIST_KINDS)
+                kind = 'x' if rng.random() < 0.1 else rng.choice(ADDLIST_KINDS)
                 vs = [rng.randint(0, vmax) for _ in range(rng.randint(0, 3))]
+                if kind == 'r' and u == 'F':
+                    kind = 't'
                 ops.append(['addlist', k, kind, list(range(len(vs))) if kind == 'r' else vs])
             elif r < 0.34:
                 ops.append(['set', k, v])
@@ -334,13 +442,62 @@ class C01(Property):
         for fn in 'nmgc':
             for rev in (0, 1):
                 H.append([['new', ['p', 'l', [[1, 2], [0, 3], [1, 0], [0, 1], [2, 1], [1, 3], [1, 1]]], []], ['sv', fn, rev]])
+        H = self._round2_families(base) + H
         out = []
         for i, h in enumerate(H):
             native = any(op[0] in ('sorted', 'sv') and op[1] == 'n' for op in h)
-            out.append(self._mk(h, i + 1, u=('S', 'I')[i % 2] if native else ('S', 'I', 'N')[i % 3]))
+            out.append(self._mk(h, i + 1, u=('S', 'I')[i % 2] if native else ('S', 'I', 'N', 'F')[i % 4]))
         for i, h in enumerate(NONEKEY):
             out.append(self._mk(h, i + 1, u='N'))
         return out
+
+    def _round2_families(self, base):
+        """small families first: aliasing between the dictionary, its arguments, its results and its copies;
+        arguments that raise half way; caller-supplied defaults; argument classes; one long history"""
+        H = []
+        P = [[3, 0], [0, 1], [3, 2], [0, 3]]
+        # the dictionary takes pairs over from the other register / a fresh OMD / its own snapshot; afterwards
+        # BOTH are changed in turn and every reader of both is looked at
+        for X in (['upd', ['t'], []], ['ext', ['t'], []], ['ior', ['t']], ['new', ['t'], []]):
+            for pre in ([], [['add', 0, 1]]):
+                H.append([base, ['swap']] + pre + [X, ['add', 0, 3], ['poplast', 1, 1], ['swap'], ['add', 1, 2],
+                                                   ['poplast', 0, 0], ['swap'], ['addlist', 2, 'l', [0, 1]], ['swap']])
+        # fresh arguments of every kind, scribbled on by the caller right after the call
+        for X in (['addlist', 3, 'l', [0, 1]], ['addlist', 0, 'l', [1]], ['upd', ['o', P], []], ['ext', ['o', P], []],
+                  ['ior', ['o', P]], ['new', ['o', P], []], ['upd', ['m', [[3, 0], [0, 1]]], []], ['ext', ['m', [[3, 0], [0, 1]]], []],
+                  ['new', ['m', [[3, 0], [0, 1]]], []], ['upd', ['p', 'l', P], []], ['ext', ['p', 't', P], []],
+                  ['upd', ['sl'], []], ['ext', ['sl'], []], ['upd', ['sd'], []], ['ext', ['sd'], []], ['ior', ['sd']]):
+            H.append([X, ['add', 0, 0]])
+            H.append([base, X, ['poplast', 0, 1], X, ['add', 3, 3]])
+            H.append([X] * 5)             # the argument classes rotate: dict / OrderedDict / UserDict / proxy / Mapping
+        # arguments that raise half way: the exception propagates, the dictionary stays consistent
+        for X in (['addlist', 0, 'x', [1, 2]], ['addlist', 3, 'x', [0]], ['addlist', 3, 'x', []], ['upd', ['p', 'x', P], []],
+                  ['upd', ['p', 'x', []], []], ['ext', ['p', 'x', P], []], ['ior', ['p', 'x', [[1, 3], [3, 3], [1, 2]]]],
+                  ['new', ['p', 'x', P], []], ['upd', ['p', 'x', [[3, 1]]], [[0, 0]]]):
+            H.append([X, ['add', 0, 0], X])
+            H.append([base, X, ['poplast', 0, 1], ['add', 3, 1], X, ['popitem']])
+        # caller-supplied defaults (falsy ones included) for every method that takes one, on absent and present keys
+        D = [['pop', 3, 1], ['poplast', 3, 1], ['popall', 3, 1], ['poplast', -1, 1]]
+        H.append(D * 4)
+        H.append([base] + [['pop', 3, 1], ['poplast', 3, 1], ['popall', 3, 1]] * 3 + [['pop', 0, 1], ['poplast', 1, 1],
+                                                                                     ['popall', 2, 1]] + D * 2)
+        # equality with an OMD of the sibling class / a subclass: the pair lists decide, not the visible items
+        for o in ([[0, 2], [1, 0], [2, 3]], [[0, 0], [1, 1], [0, 2], [2, 3], [1, 0]], [[1, 1], [0, 2], [2, 3], [1, 0]]):
+            H.append([base] + [['eq', ['o', o]]] * 4 + [['upd', ['o', o], []]] + [['eq', ['o', o]]] * 4)
+        for m in ([[0, 2], [1, 0], [2, 3]], [[0, 2], [1, 0], [2, 0]], [[0, 2], [1, 0]]):
+            H.append([base] + [['eq', ['m', m]]] * 6 + [['eq', ['x', 'td']], ['eq', ['sd']], ['eq', ['sl']]])
+        # a mapping that lacks a key whose visible value is None (a `.get()`-style comparison would not notice)
+        for h in ([['add', 2, 4], ['eq', ['m', [[3, 1]]]], ['eq', ['m', [[2, 4]]]], ['eq', ['m', [[3, 4]]]]],
+                  [['add', 0, 1], ['add', 1, 4], ['eq', ['m', [[0, 1], [2, 4]]]], ['eq', ['m', [[0, 1], [2, 1]]]]],
+                  [['sd', 1, -1], ['eq', ['m', [[0, 4]]]], ['eq', ['m', [[1, 4]]]], ['eq', ['m', [[0, 0]]]]]):
+            for _ in range(3):
+                H.append(h)
+        # one long history: hundreds of values under two keys, interleaved, then taken apart again
+        big = [j % 4 for j in range(300)]
+        H.append([['addlist', 0, 'l', big], ['addlist', 1, 'g', big[:150]], ['addlist', 0, 'i', big[:120]], ['add', 2, 1],
+                  ['poplast', 0, 0], ['poplast', -1, 0], ['sv', 'g', 0], ['sorted', 'v', 1], ['cp', 'p2', 't'], ['eq', ['t']],
+                  ['set', 1, 2], ['popall', 0, 0], ['popitem']])
+        return H
 
     # ------------------------------------------------------------------ model line
     @staticmethod
@@ -352,22 +509,34 @@ class C01(Property):
             return 'n'
         if E[0] in ('s', 't'):
             return E[0]
+        if E[0] == 'sl':
+            return 'S'
+        if E[0] == 'sd' or E == ['x', 'td']:
+            return 'D'
         if E[0] == 'x':
             return 'x'
         if E[0] == 'p':
             return 'p' + self._pairs_tok(E[2])
         return E[0] + self._pairs_tok(E[1])
 
+    @staticmethod
+    def _aborts(E):
+        return E is not None and E[0] == 'p' and E[1] == 'x'
+
     def line(self, case):
         toks = [str(NK)]
         for op in case['ops']:
             o = op[0]
-            if o == 'new':
+            if o in ('new', 'upd', 'ext', 'ior') and self._aborts(op[1]):
+                # the argument iterable raises after its pairs: keyword arguments are never reached
+                toks.append({'new': 'newx', 'upd': 'updx:', 'ior': 'updx:', 'ext': 'extx:'}[o]
+                            + ('' if o == 'new' else self._pairs_tok(op[1][2])))
+            elif o == 'new':
                 toks.append('new:%s:%s' % (self._arg_tok(op[1]), self._pairs_tok(op[2])))
             elif o in ('add', 'set'):
                 toks.append('%s:%d:%d' % (o, op[1], op[2]))
             elif o == 'addlist':
-                toks.append('addlist:%d:%s' % (op[1], ','.join(map(str, op[3])) or '-'))
+                toks.append('addlist%s:%d:%s' % ('x' if op[2] == 'x' else '', op[1], ','.join(map(str, op[3])) or '-'))
             elif o == 'del':
                 toks.append('del:%d' % op[1])
             elif o in ('upd', 'ext'):
@@ -385,7 +554,9 @@ class C01(Property):
             elif o == 'cp':
                 toks.append('cpt' if op[2] == 't' else 'cps')
             elif o == 'eq':
-                toks.append('eq:x' if op[1][0] in ('p', 'x') else 'eq:' + self._arg_tok(op[1]))
+                E = op[1]
+                toks.append('eq:D' if E[0] == 'sd' or E == ['x', 'td'] else
+                            'eq:x' if E[0] in ('p', 'x', 'sl') else 'eq:' + self._arg_tok(E))
             elif o in ('sorted', 'sv'):
                 toks.append('%s:%s:%d' % (o, op[1], op[2]))
             else:
@@ -399,12 +570,17 @@ class C01(Property):
             return s
         if kind == 't':
             return t
+        if kind == 'sl':                # a snapshot of the receiver's own pairs, as a list
+            return list(s.items(multi=True))
+        if kind == 'sd':                # the receiver's own todict()
+            return s.todict()
         if kind == 'o':
-            return cls(cx.pairs(E[1]))
+            return cx.omd_class(cls, _classes())(cx.pairs(E[1]))
         if kind == 'm':
-            return dict(cx.pairs(E[1]))
+            return cx.mapping(cx.pairs(E[1]))
         if kind == 'x':
-            return {'l': list(s.items(multi=True)), 'n': None, 'i': 5}[E[1]]
+            return {'l': lambda: list(s.items(multi=True)), 'n': lambda: None, 'i': lambda: 5,
+                    'td': lambda: s.todict()}[E[1]]()
         ps = cx.pairs(E[2])
         pk = E[1]
         if pk == 'l':
@@ -415,7 +591,33 @@ class C01(Property):
             return tuple(list(p) for p in ps)
         if pk == 'i':
             return iter(ps)
+        if pk == 'x':
+            return _raising(ps)
         return zip([p[0] for p in ps], [p[1] for p in ps])
+
+    @staticmethod
+    def _scribble(E, a):
+        """the caller goes on using - and changing - the objects it handed in: the dictionary must not have
+        kept any of them (or any part of them) by reference"""
+        try:
+            kind = E[0]
+            if kind == 'o':
+                for k in a.keys():
+                    a.add(k, JUNK)
+                a.add(JUNK, JUNK)
+                a.clear()
+            elif kind in ('m', 'sd') and hasattr(a, 'clear'):
+                a[JUNK] = JUNK
+                a.clear()
+            elif kind in ('p', 'sl') and isinstance(a, list):
+                a.append((JUNK, JUNK))
+                a.reverse()
+            elif kind == 'p' and isinstance(a, tuple):
+                for p in a:
+                    p.append(JUNK)
+                    p.reverse()
+        except Exception:
+            pass
 
     def _kwargs(self, cx, F):
         return {KEY_FORMS[cx.u][k][0]: cx.V(v) for k, v in F}
@@ -442,95 +644,121 @@ class C01(Property):
 
     def _apply(self, cx, cls, s, t, op):
         o = op[0]
+        arg = E = None
         try:
-            if o == 'new':
-                kw = self._kwargs(cx, op[2])
-                s = cls(**kw) if op[1] is None else cls(self._arg(cx, cls, s, t, op[1]), **kw)
-                return ['N'], s, t
-            if o == 'add':
-                r = s.add(cx.K(op[1]), cx.V(op[2]))
-            elif o == 'addlist':
-                vs = [cx.V(v) for v in op[3]]
-                if op[2] == 'r':        # range(n): the generators list the values 0..n-1 for this kind
-                    if op[3] != list(range(len(op[3]))):
-                        raise common.InfraError('addlist kind r needs values 0..n-1')
-                    vs = range(len(op[3]))
-                arg = {'l': vs, 'i': iter(vs), 't': tuple(vs), 'g': (v for v in vs), 'r': vs}[op[2]]
-                r = s.addlist(cx.K(op[1]), arg)
-            elif o == 'set':
-                s[cx.K(op[1])] = cx.V(op[2])
-                r = None
-            elif o == 'del':
-                del s[cx.K(op[1])]
-                r = None
-            elif o == 'upd':
-                r = s.update(self._arg(cx, cls, s, t, op[1]), **self._kwargs(cx, op[2]))
-            elif o == 'ext':
-                r = s.update_extend(self._arg(cx, cls, s, t, op[1]), **self._kwargs(cx, op[2]))
-            elif o == 'ior':
-                s0 = s
-                s |= self._arg(cx, cls, s, t, op[1])
-                if s is not s0:
-                    return ['?', '|= rebound the name to another object'], s, t
-                r = None
-            elif o == 'sd':
-                r = s.setdefault(cx.K(op[1])) if op[2] < 0 else s.setdefault(cx.K(op[1]), cx.V(op[2]))
-                return ['V', cx.vid(r)], s, t
-            elif o == 'pop':
-                r = s.pop(cx.K(op[1]), DEFAULT) if op[2] else s.pop(cx.K(op[1]))
-                return (['D'] if r is DEFAULT else ['V', cx.vid(r)]), s, t
-            elif o == 'popall':
-                r = s.popall(cx.K(op[1]), DEFAULT) if op[2] else s.popall(cx.K(op[1]))
-                if r is DEFAULT:
-                    return ['D'], s, t
-                if not isinstance(r, list):
-                    return ['?', 'popall returned %.40r' % (r,)], s, t
-                return ['L', [cx.vid(v) for v in r]], s, t
-            elif o == 'poplast':
-                a = ([] if op[1] < 0 else [cx.K(op[1])])
-                if op[2]:
-                    r = s.poplast(a[0], DEFAULT) if a else s.poplast(default=DEFAULT)
+            try:
+                if o == 'new':
+                    kw = self._kwargs(cx, op[2])
+                    if op[1] is None:
+                        s = cls(**kw)
+                    else:
+                        E = op[1]
+                        arg = self._arg(cx, cls, s, t, E)
+                        s = cls(arg, **kw)
+                    return ['N'], s, t
+                if o == 'add':
+                    r = s.add(cx.K(op[1]), cx.V(op[2]))
+                elif o == 'addlist':
+                    vs = [cx.V(v) for v in op[3]]
+                    if op[2] == 'r':        # range(n): the generators list the values 0..n-1 for this kind
+                        if op[3] != list(range(len(op[3]))):
+                            raise common.InfraError('addlist kind r needs values 0..n-1')
+                        vs = range(len(op[3]))
+                    arg = {'l': lambda: vs, 'i': lambda: iter(vs), 't': lambda: tuple(vs), 'g': lambda: (v for v in vs),
+                           'r': lambda: vs, 'x': lambda: _raising(vs)}[op[2]]()
+                    E = ['al']
+                    r = s.addlist(cx.K(op[1]), arg)
+                elif o == 'set':
+                    s[cx.K(op[1])] = cx.V(op[2])
+                    r = None
+                elif o == 'del':
+                    del s[cx.K(op[1])]
+                    r = None
+                elif o == 'upd':
+                    E = op[1]
+                    arg = self._arg(cx, cls, s, t, E)
+                    r = s.update(arg, **self._kwargs(cx, op[2]))
+                elif o == 'ext':
+                    E = op[1]
+                    arg = self._arg(cx, cls, s, t, E)
+                    r = s.update_extend(arg, **self._kwargs(cx, op[2]))
+                elif o == 'ior':
+                    s0 = s
+                    E = op[1]
+                    arg = self._arg(cx, cls, s, t, E)
+                    s |= arg
+                    if s is not s0:
+                        return ['?', '|= rebound the name to another object'], s, t
+                    r = None
+                elif o == 'sd':
+                    r = s.setdefault(cx.K(op[1])) if op[2] < 0 else s.setdefault(cx.K(op[1]), cx.V(op[2]))
+                    return ['V', cx.vid(r)], s, t
+                elif o == 'pop':
+                    r = s.pop(cx.K(op[1]), cx.D()) if op[2] else s.pop(cx.K(op[1]))
+                    return (['D'] if (op[2] and r is cx.dflt) else ['V', cx.vid(r)]), s, t
+                elif o == 'popall':
+                    r = s.popall(cx.K(op[1]), cx.D()) if op[2] else s.popall(cx.K(op[1]))
+                    if op[2] and r is cx.dflt:
+                        return ['D'], s, t
+                    if not isinstance(r, list):
+                        return ['?', 'popall returned %.40r' % (r,)], s, t
+                    ret = ['L', [cx.vid(v) for v in r]]
+                    r.append(JUNK)      # the popped values belong to the caller now
+                    return ret, s, t
+                elif o == 'poplast':
+                    a = ([] if op[1] < 0 else [cx.K(op[1])])
+                    if op[2]:
+                        r = s.poplast(a[0], cx.D()) if a else s.poplast(default=cx.D())
+                    else:
+                        r = s.poplast(*a)
+                    return (['D'] if (op[2] and r is cx.dflt) else ['V', cx.vid(r)]), s, t
+                elif o == 'popitem':
+                    r = s.popitem()
+                    if not (isinstance(r, tuple) and len(r) == 2):
+                        return ['?', 'popitem returned %.40r' % (r,)], s, t
+                    return ['KV', cx.kid(r[0]), cx.vid(r[1])], s, t
+                elif o == 'clear':
+                    r = s.clear()
+                elif o == 'swap':
+                    return ['N'], t, s
+                elif o == 'cp':
+                    kind = op[1]
+                    if kind == 'copy':
+                        c = s.copy()
+                    elif kind == 'cc':
+                        c = copy.copy(s)
+                    elif kind == 'dc':
+                        c = copy.deepcopy(s)
+                    else:
+                        c = pickle.loads(pickle.dumps(s, int(kind[1])))
+                    if type(c) is not cls or c is s:
+                        return ['?', 'copy gave %s' % type(c).__name__], s, t
+                    return (['N'], c, t) if op[2] == 's' else (['N'], s, c)
+                elif o == 'eq':
+                    E = op[1]
+                    other = arg = self._arg(cx, cls, s, t, E)
+                    a, b = (s == other), (s != other)
+                    refl = [(other == s), (other != s)] if (type(other) is dict or E[0] in 'sto') else [a, b]
+                    if not all(isinstance(x, bool) for x in [a, b] + refl):
+                        return ['?', 'comparison returned a non-bool'], s, t
+                    return ['B', int(a), int(b), int(refl[0]), int(refl[1])], s, t
+                elif o == 'sorted':
+                    key = {'n': None, 'k': lambda i: cx.kid(i[0]), 'v': lambda i: cx.vid(i[1]), 'c': lambda i: 0}[op[1]]
+                    return self._newomd(cx, cls, s, s.sorted(key=key, reverse=bool(op[2]))), s, t
+                elif o == 'sv':
+                    key = {'n': None, 'm': lambda v: cx.vid(v) % 2, 'g': lambda v: -cx.vid(v), 'c': lambda v: 0}[op[1]]
+                    return self._newomd(cx, cls, s, s.sortedvalues(key=key, reverse=bool(op[2]))), s, t
                 else:
-                    r = s.poplast(*a)
-                return (['D'] if r is DEFAULT else ['V', cx.vid(r)]), s, t
-            elif o == 'popitem':
-                r = s.popitem()
-                if not (isinstance(r, tuple) and len(r) == 2):
-                    return ['?', 'popitem returned %.40r' % (r,)], s, t
-                return ['KV', cx.kid(r[0]), cx.vid(r[1])], s, t
-            elif o == 'clear':
-                r = s.clear()
-            elif o == 'swap':
-                return ['N'], t, s
-            elif o == 'cp':
-                kind = op[1]
-                if kind == 'copy':
-                    c = s.copy()
-                elif kind == 'cc':
-                    c = copy.copy(s)
-                elif kind == 'dc':
-                    c = copy.deepcopy(s)
-                else:
-                    c = pickle.loads(pickle.dumps(s, int(kind[1])))
-                if type(c) is not cls or c is s:
-                    return ['?', 'copy gave %s' % type(c).__name__], s, t
-                return (['N'], c, t) if op[2] == 's' else (['N'], s, c)
-            elif o == 'eq':
-                other = self._arg(cx, cls, s, t, op[1])
-                a, b = (s == other), (s != other)
-                refl = [(other == s), (other != s)] if isinstance(other, dict) else [a, b]
-                if not all(isinstance(x, bool) for x in [a, b] + refl):
-                    return ['?', 'comparison returned a non-bool'], s, t
-                return ['B', int(a), int(b), int(refl[0]), int(refl[1])], s, t
-            elif o == 'sorted':
-                key = {'n': None, 'k': lambda i: cx.kid(i[0]), 'v': lambda i: cx.vid(i[1]), 'c': lambda i: 0}[op[1]]
-                return self._newomd(cx, cls, s, s.sorted(key=key, reverse=bool(op[2]))), s, t
-            elif o == 'sv':
-                key = {'n': None, 'm': lambda v: cx.vid(v) % 2, 'g': lambda v: -cx.vid(v), 'c': lambda v: 0}[op[1]]
-                return self._newomd(cx, cls, s, s.sortedvalues(key=key, reverse=bool(op[2]))), s, t
-            else:
-                raise common.InfraError('unknown op %r' % (op,))
-            return (['N'] if r is None else ['?', 'returned %.40r' % (r,)]), s, t
+                    raise common.InfraError('unknown op %r' % (op,))
+                return (['N'] if r is None else ['?', 'returned %.40r' % (r,)]), s, t
+            finally:
+                if E is not None:
+                    if E == ['al']:
+                        if isinstance(arg, list):
+                            arg.append(JUNK)
+                            arg.reverse()
+                    elif E[0] not in ('s', 't', 'x'):
+                        self._scribble(E, arg)
         except (common.InfraError, CaseTimeout):
             raise
         except Exception as e:
@@ -539,7 +767,9 @@ class C01(Property):
     def _newomd(self, cx, cls, s, r):
         if type(r) is not cls or r is s:
             return ['?', 'result is %s' % type(r).__name__]
-        return ['O', cx.kv(r.items(multi=True)), [cx.kid(k) for k in r.keys()], len(r)]
+        ret = ['O', cx.kv(r.items(multi=True)), [cx.kid(k) for k in r.keys()], len(r)]
+        self._scribble(['o'], r)        # the result is a dictionary of its own: changing it must not reach `s`
+        return ret
 
     def _dump(self, cx, s, t):
         def rd(f):
@@ -549,13 +779,19 @@ class C01(Property):
                 raise
             except Exception as e:
                 return {'!': exc_name(e)}
+
+        def own(l):
+            """a list handed out by a reader belongs to the caller: writing to it must not reach the dictionary"""
+            if isinstance(l, list):
+                l.append((JUNK, JUNK))
+            return l
         d = {}
-        d['im'] = rd(lambda: cx.kv(s.items(multi=True)))
-        d['i'] = rd(lambda: cx.kv(s.items()))
-        d['km'] = rd(lambda: [cx.kid(k) for k in s.keys(multi=True)])
-        d['k'] = rd(lambda: [cx.kid(k) for k in s.keys()])
-        d['vm'] = rd(lambda: [cx.vid(v) for v in s.values(multi=True)])
-        d['v'] = rd(lambda: [cx.vid(v) for v in s.values()])
+        d['im'] = rd(lambda: (lambda l: (cx.kv(l), own(l))[0])(s.items(multi=True)))
+        d['i'] = rd(lambda: (lambda l: (cx.kv(l), own(l))[0])(s.items()))
+        d['km'] = rd(lambda: (lambda l: ([cx.kid(k) for k in l], own(l))[0])(s.keys(multi=True)))
+        d['k'] = rd(lambda: (lambda l: ([cx.kid(k) for k in l], own(l))[0])(s.keys()))
+        d['vm'] = rd(lambda: (lambda l: ([cx.vid(v) for v in l], own(l))[0])(s.values(multi=True)))
+        d['v'] = rd(lambda: (lambda l: ([cx.vid(v) for v in l], own(l))[0])(s.values()))
         d['len'] = rd(lambda: len(s))
         d['rv'] = rd(lambda: [cx.kid(k) for k in reversed(s)])
 
@@ -563,39 +799,58 @@ class C01(Property):
             td = s.todict(multi=True)
             r = sorted([cx.kid(k), [cx.vid(v) for v in vs]] for k, vs in td.items())
             for vs in td.values():
-                vs.append('junk')   # documented: "all the value lists are copies that can be safely mutated"
+                vs.append(JUNK)     # documented: "all the value lists are copies that can be safely mutated"
+            td[JUNK] = JUNK
             return r
         d['tm'] = rd(todict_multi)
         probes = [KEY_FORMS[cx.u][k][-1] for k in range(NK)]
-        d['g'] = [rd(lambda: cx.vid(s.get(p, DEFAULT))) for p in probes]
+        d['g'] = [rd(lambda: (lambda r: 'D' if r is cx.dflt else cx.vid(r))(s.get(p, cx.D()))) for p in probes]
 
         def getlist(p):
             l = s.getlist(p)
             r = [cx.vid(v) for v in l]
-            l.append('junk')        # the returned list is documented to be a copy: must not write through
+            l.append(JUNK)          # the returned list is documented to be a copy: must not write through
             return r
         d['gl'] = [rd(lambda: getlist(p)) for p in probes]
         d['gi'] = [rd(lambda: cx.vid(s[p])) for p in probes]
         d['c'] = [rd(lambda: int(p in s)) for p in probes]
-        d['cn'] = rd(lambda: [[cx.kid(k), n] for k, n in s.counts().items(multi=True)])
+
+        def counts():
+            r = s.counts()
+            ret = [[cx.kid(k), n] for k, n in r.items(multi=True)]
+            self._scribble(['o'], r)
+            return ret
+        d['cn'] = rd(counts)
 
         def inv():
             r = s.inverted()
-            return [[[cx.vid(a), cx.kid(b)] for a, b in r.items(multi=True)], [cx.vid(a) for a in r.keys()], len(r)]
+            ret = [[[cx.vid(a), cx.kid(b)] for a, b in r.items(multi=True)], [cx.vid(a) for a in r.keys()], len(r)]
+            self._scribble(['o'], r)
+            return ret
         d['inv'] = rd(inv)
         d['t'] = rd(lambda: cx.kv(t.items(multi=True)))
         # oracle-only readers (the model has no separate function for them)
         d['it'] = rd(lambda: [cx.kid(k) for k in s])
         d['iti'] = rd(lambda: [cx.kv(s.iteritems()), cx.kv(s.iteritems(multi=True)),
                                [cx.kid(k) for k in s.iterkeys(multi=True)], [cx.vid(v) for v in s.itervalues()]])
-        d['td'] = rd(lambda: sorted([cx.kid(k), cx.vid(v)] for k, v in s.todict().items()))
+
+        def todict():
+            td = s.todict()
+            r = sorted([cx.kid(k), cx.vid(v)] for k, v in td.items())
+            td[JUNK] = JUNK
+            return r
+        d['td'] = rd(todict)
         d['g0'] = [rd(lambda: cx.vid(s.get(p))) for p in probes]
-        d['gld'] = [rd(lambda: (lambda r: 'D' if r is DEFAULT else [cx.vid(v) for v in r])(s.getlist(p, DEFAULT))) for p in probes]
+        d['gld'] = [rd(lambda: (lambda r: 'D' if r is cx.dflt else [cx.vid(v) for v in r])(s.getlist(p, cx.D())))
+                    for p in probes]
         d['bool'] = rd(lambda: int(bool(s)))
         d['repr'] = rd(lambda: int(repr(s) == '%s([%s])' % (type(s).__name__, ', '.join(
             repr((k, v)) for k, v in s.items(multi=True)))))
         d['cnt'] = rd(lambda: type(s.counts()) is type(s))
         d['eqself'] = rd(lambda: [int(s == s), int(s != s)])
+        # the other register: its own keyed and ordered readers (it may have been an argument or a copy of `s`)
+        d['t2'] = rd(lambda: [len(t), [cx.kid(k) for k in t.keys()], [[cx.vid(v) for v in t.getlist(p)] for p in probes],
+                              cx.kv(t.items())])
         return d
 
     # ------------------------------------------------------------------ canonical text (= driver output)
@@ -646,7 +901,8 @@ class C01(Property):
                  'IM' + e(d['im'], self._pairs), 'I' + e(d['i'], self._pairs),
                  'KM' + e(d['km'], self._nats), 'K' + e(d['k'], self._nats),
                  'VM' + e(d['vm'], self._nats), 'V' + e(d['v'], self._nats),
-                 'L' + e(d['len'], str), 'R' + e(d['rv'], self._nats),
+                 'L' + e(d['len'], str), 'BO' + e(d['bool'], str), 'IT' + e(d['it'], self._nats),
+                 'R' + e(d['rv'], self._nats),
                  'TD' + e(d['td'], self._pairs),
                  'TM' + e(d['tm'], lambda l: ','.join('%s=%s' % (k, self._vals(vs)) for k, vs in l)),
                  'G' + ','.join(e(x, str) for x in d['g']),
@@ -686,6 +942,10 @@ class C01(Property):
             return 'omd', [tuple(p) for p in E[1]]
         if E[0] == 'm':
             return 'map', [tuple(p) for p in E[1]]
+        if E[0] == 'sl':
+            return 'pairs', list(L)
+        if E[0] == 'sd' or E == ['x', 'td']:
+            return 'map', [(k, self._vals_of(L, k)[-1]) for k in self._keys(L)]
         if E[0] == 'x':
             return 'other', None
         return 'pairs', [tuple(p) for p in E[2]]
@@ -715,7 +975,23 @@ class C01(Property):
             st[name] = st.get(name, 0) + 1
             exp = ['N']
             exp_fn = None          # custom acceptance of the return value
-            if name == 'new':
+            cands = None           # acceptable pair lists after an operation whose argument iterable raised
+            if name in ('new', 'upd', 'ior', 'ext') and self._aborts(op[1]):
+                # the exception of the argument iterable propagates; how much of the argument was taken over
+                # before is not prescribed (any prefix), but the dictionary must be consistent afterwards
+                exp = ['X', 'Boom']
+                ps = [tuple(p) for p in op[1][2]]
+                if name == 'new':
+                    cands = [L]    # no object was constructed: `s` is still the old dictionary
+                elif name == 'ext':
+                    cands = [L + ps[:j] for j in range(len(ps), -1, -1)]
+                else:
+                    cands = [self._replace_by(L, ps[:j]) for j in range(len(ps), -1, -1)]
+                    removed = True
+            elif name == 'addlist' and op[2] == 'x':
+                exp = ['X', 'Boom']
+                cands = [L + [(op[1], v) for v in op[3][:j]] for j in range(len(op[3]) + 1)]
+            elif name == 'new':
                 F = [tuple(p) for p in op[2]]
                 if op[1] is None:
                     base = []
@@ -840,6 +1116,9 @@ class C01(Property):
                     return None
             else:
                 return Failure('harness', 'unknown op %r' % (op,))
+            if cands is not None:
+                st['aborted'] = st.get('aborted', 0) + 1
+                L = next((c for c in cands if [list(p) for p in c] == d.get('im')), cands[0])
             # ---- the return value
             if exp_fn is not None:
                 why = exp_fn(ret)
@@ -882,6 +1161,9 @@ class C01(Property):
             'gld': [self._vals_of(L, k) if k in last else 'D' for k in range(NK)],
             'bool': int(bool(L)), 'repr': 1, 'cnt': True, 'eqself': [1, 0],
         }
+        tkeys = self._keys(T)
+        exp['t2'] = [len(tkeys), tkeys, [self._vals_of(T, k) for k in range(NK)],
+                     [[k, self._vals_of(T, k)[-1]] for k in tkeys]]
         inv = [[v, k] for k, v in L]
         exp['inv'] = [inv, self._keys(inv), len(self._keys(inv))]
         for name, want in exp.items():
